@@ -122,6 +122,13 @@ def _rename_bound(e):
 def apply_lambda(lam, args, keywords=()):
     """(lambda p..: body)(args) -> body[p := args]; None when the arities do not fit or an argument that would be
     duplicated is not simple"""
+    part = getattr(lam, "_partial", None)
+    if part is not None and all(_simple(x) for x in part[1]) and all(_simple(k.value) for k in part[2]) \
+            and not any(isinstance(x, ast.Starred) for x in args):
+        # partial(f, a, k=v)(x, y, j=w) is f(a, x, y, k=v, j=w)
+        inner, fixed, kws = part
+        return ast.Call(func=copy.deepcopy(inner), args=[copy.deepcopy(x) for x in fixed] + list(args),
+                        keywords=[copy.deepcopy(k) for k in kws] + list(keywords))
     a = lam.args
     if a.vararg or a.kwarg or a.kwonlyargs or keywords:
         return None
@@ -200,7 +207,9 @@ def function_value(e):
                 remaining = max(len(fv.args.args) - len(fixed), 0)
             rest = [f"_x{i}" if remaining != 1 else "_x" for i in range(remaining)]
             call = ast.Call(func=copy.deepcopy(inner), args=fixed + [_name(r) for r in rest], keywords=kws)
-            return _lam(rest, call)
+            lam = _lam(rest, call)
+            lam._partial = (inner, fixed, kws)
+            return lam
     return None
 
 
@@ -218,6 +227,20 @@ def _expr_helper(fn):
     args = copy.deepcopy(a)
     for x in args.posonlyargs + args.args:
         x.annotation = None
+    # name = e (bound once, read once, e free of yields) in front of the rest: read through
+    while len(body) >= 2 and isinstance(body[0], ast.Assign) and len(body[0].targets) == 1 \
+            and isinstance(body[0].targets[0], ast.Name):
+        nm, val = body[0].targets[0].id, body[0].value
+        rest = ast.Module(body=body[1:], type_ignores=[])
+        reads = sum(1 for n in ast.walk(rest) if isinstance(n, ast.Name) and n.id == nm and isinstance(n.ctx, ast.Load))
+        writes = sum(1 for n in ast.walk(rest) if isinstance(n, ast.Name) and n.id == nm and not isinstance(n.ctx, ast.Load))
+        params_ = {x.arg for x in a.posonlyargs + a.args}
+        stores_rest = {n.id for n in ast.walk(rest) if isinstance(n, ast.Name) and not isinstance(n.ctx, ast.Load)}
+        if reads != 1 or writes or nm in params_ or (_free(val) & stores_rest) \
+                or any(isinstance(n, (ast.Yield, ast.YieldFrom, ast.Await, ast.NamedExpr)) for n in ast.walk(val)) \
+                or len(body) != 2 or not isinstance(body[1], ast.Return):
+            break
+        body = [_Subst({nm: val}).visit(copy.deepcopy(body[1]))]
     if len(body) == 1 and isinstance(body[0], ast.Return) and body[0].value is not None:
         if any(isinstance(n, (ast.Yield, ast.YieldFrom, ast.Await)) for n in ast.walk(body[0].value)):
             return None
@@ -285,6 +308,7 @@ class _Reduce(ast.NodeTransformer):
         self.changed = False
         self.used_helpers = set()
         self.hoist, self.hoist_ok = [], False
+        self.local_defs = [{}]
 
     # -- scopes
     def visit_FunctionDef(self, node):
@@ -325,9 +349,11 @@ class _Reduce(ast.NodeTransformer):
                 ok[nm] = (lam, st)
         self.scopes.append({k: v[0] for k, v in ok.items()})
         self.shadow.append(set(stores) | params | set(nested))
+        self.local_defs.append({st.name: st for st in node.body if isinstance(st, ast.FunctionDef)})
         self.generic_visit(node)
         scope = self.scopes.pop()
         self.shadow.pop()
+        self.local_defs.pop()
         # definitions whose every use was replaced are dead
         dead = set()
         for nm, (lam, st) in ok.items():
@@ -396,6 +422,58 @@ class _Reduce(ast.NodeTransformer):
             self.changed = True
             return ast.copy_location(ast.GeneratorExp(elt=_name(nm), generators=[
                 ast.comprehension(target=ast.Name(id=nm, ctx=ast.Store()), iter=node.args[1], ifs=[test], is_async=0)]), node)
+        if _is(f, "itertools", "starmap") and len(node.args) == 2 and not node.keywords:
+            fv = self._lookup(node.args[0])
+            xs = node.args[1]
+            arity = None
+            if isinstance(xs, ast.Call) and not xs.keywords and (
+                    (isinstance(xs.func, ast.Name) and xs.func.id == "zip") or _is(xs.func, "itertools", "product")):
+                arity = len(xs.args)
+            elif isinstance(xs, ast.GeneratorExp) and isinstance(xs.elt, ast.Tuple):
+                arity = len(xs.elt.elts)
+            elif fv is not None and not fv.args.defaults:
+                arity = len(fv.args.args)
+            elif isinstance(node.args[0], ast.Name) and node.args[0].id in self.local_defs[-1]:
+                d = self.local_defs[-1][node.args[0].id].args
+                if not (d.vararg or d.kwarg or d.kwonlyargs or d.defaults):
+                    arity = len(d.posonlyargs + d.args)
+            if arity:
+                _fresh[0] += 1
+                names = [f"_s{_fresh[0]}_{i}" for i in range(arity)]
+                call = ast.Call(func=node.args[0], args=[_name(n) for n in names], keywords=[])
+                call = self._reduce_call(call) or call
+                target = ast.Tuple(elts=[ast.Name(id=n, ctx=ast.Store()) for n in names], ctx=ast.Store())
+                self.changed = True
+                return ast.copy_location(ast.GeneratorExp(elt=call, generators=[
+                    ast.comprehension(target=target, iter=xs, ifs=[], is_async=0)]), node)
+        if _is(f, "itertools", "product") and len(node.args) >= 2 and not node.keywords \
+                and not any(isinstance(a, ast.Starred) for a in node.args):
+            _fresh[0] += 1
+            names = [f"_p{_fresh[0]}_{i}" for i in range(len(node.args))]
+            # product() reads its arguments completely before the first tuple: the same tuples in the same order as the
+            # nested loops whenever the arguments are free of side effects on one another (sequences)
+            if all(_simple(a) or isinstance(a, ast.Call) and isinstance(a.func, ast.Name) and a.func.id in ("enumerate", "range")
+                   for a in node.args):
+                self.changed = True
+                return ast.copy_location(ast.GeneratorExp(
+                    elt=ast.Tuple(elts=[_name(n) for n in names], ctx=ast.Load()),
+                    generators=[ast.comprehension(target=ast.Name(id=n, ctx=ast.Store()), iter=a, ifs=[], is_async=0)
+                                for n, a in zip(names, node.args)]), node)
+        if _is(f, "itertools", "compress") and len(node.args) == 2 and not node.keywords:
+            _fresh[0] += 1
+            a, b = f"_k{_fresh[0]}a", f"_k{_fresh[0]}b"
+            self.changed = True
+            return ast.copy_location(ast.GeneratorExp(elt=_name(a), generators=[ast.comprehension(
+                target=ast.Tuple(elts=[ast.Name(id=a, ctx=ast.Store()), ast.Name(id=b, ctx=ast.Store())], ctx=ast.Store()),
+                iter=ast.Call(func=_name("zip"), args=list(node.args), keywords=[]), ifs=[_name(b)], is_async=0)]), node)
+        if _is(f, "itertools", "islice") and len(node.args) in (2, 3) and not node.keywords and _simple(node.args[0]):
+            # a slice of a sequence (the engines say `undecided` if the name turns out to hold an iterator)
+            lo, hi = (None, node.args[1]) if len(node.args) == 2 else (node.args[1], node.args[2])
+            def bound(b):
+                return None if b is None or (isinstance(b, ast.Constant) and b.value is None) else b
+            self.changed = True
+            return ast.copy_location(ast.Subscript(value=node.args[0], slice=ast.Slice(lower=bound(lo), upper=bound(hi), step=None),
+                                                   ctx=ast.Load()), node)
         if _is(f, "itertools", "chain") and not node.keywords:
             self.changed = True
             return ast.copy_location(ast.Tuple(elts=[a if isinstance(a, ast.Starred) else ast.Starred(value=a, ctx=ast.Load())
@@ -503,7 +581,47 @@ class _Statements(ast.NodeTransformer):
                 setattr(node, f, self._block(b))
         return node
 
+    @staticmethod
+    def _eager_positions(e):
+        """sub-expressions of e that are evaluated exactly once, unconditionally, when e is"""
+        out = []
+        stack = [e]
+        while stack:
+            n = stack.pop()
+            out.append(n)
+            if isinstance(n, (ast.Lambda, ast.BoolOp, ast.IfExp)):
+                if isinstance(n, ast.BoolOp):
+                    stack.append(n.values[0])
+                if isinstance(n, ast.IfExp):
+                    stack.append(n.test)
+                continue
+            if isinstance(n, (ast.GeneratorExp, ast.ListComp, ast.SetComp, ast.DictComp)):
+                stack.append(n.generators[0].iter)
+                continue
+            stack.extend(c for c in ast.iter_child_nodes(n) if isinstance(c, ast.expr))
+        return out
+
     def _stmt(self, st):
+        # a reduce(...) nested in the expression of a simple statement is computed in front of it
+        if isinstance(st, (ast.Assign, ast.Return, ast.Expr, ast.AugAssign)) and st.value is not None:
+            nested = [n for n in self._eager_positions(st.value) if n is not st.value and isinstance(n, ast.Call)
+                      and _is(n.func, "functools", "reduce") and len(n.args) == 3 and not n.keywords]
+            if nested:
+                target = nested[0]
+                _fresh[0] += 1
+                tmp = f"_red{_fresh[0]}"
+
+                class Put(ast.NodeTransformer):
+                    def visit_Call(s2, n):
+                        if n is target:
+                            return ast.copy_location(_name(tmp), n)
+                        return s2.generic_visit(n)
+                pre = ast.Assign(targets=[ast.Name(id=tmp, ctx=ast.Store())], value=target)
+                ast.copy_location(pre, st)
+                ast.fix_missing_locations(pre)
+                st.value = Put().visit(st.value)
+                self.changed = True
+                return self._block([pre, st])
         # v = reduce(f, xs[, init])  /  return reduce(...)
         val = st.value if isinstance(st, (ast.Assign, ast.Return)) else None
         if isinstance(val, ast.Call) and _is(val.func, "functools", "reduce") and len(val.args) == 3 and not val.keywords:
@@ -534,6 +652,30 @@ class _Statements(ast.NodeTransformer):
                     ast.fix_missing_locations(n)
                 self.changed = True
                 return self._block(new)
+        # T = operator.iadd(operator.imul(T, a), b)   ->   T *= a; T += b      (the in-place operator functions)
+        if isinstance(st, ast.Assign) and len(st.targets) == 1 and isinstance(st.targets[0], ast.Name):
+            T = st.targets[0].id
+            INPLACE = {"iadd": ast.Add, "isub": ast.Sub, "imul": ast.Mult, "itruediv": ast.Div, "ior": ast.BitOr,
+                       "iand": ast.BitAnd, "ixor": ast.BitXor, "ifloordiv": ast.FloorDiv, "imod": ast.Mod}
+
+            def chain_of(e):
+                if isinstance(e, ast.Name) and e.id == T:
+                    return []
+                if isinstance(e, ast.Call) and isinstance(e.func, ast.Attribute) and isinstance(e.func.value, ast.Name) \
+                        and e.func.value.id == "operator" and e.func.attr in INPLACE and len(e.args) == 2 and not e.keywords:
+                    inner = chain_of(e.args[0])
+                    if inner is None or any(isinstance(n, ast.Name) and n.id == T for n in ast.walk(e.args[1])):
+                        return None
+                    return inner + [ast.AugAssign(target=ast.Name(id=T, ctx=ast.Store()), op=INPLACE[e.func.attr](),
+                                                  value=e.args[1])]
+                return None
+            steps = chain_of(st.value)
+            if steps:
+                for n in steps:
+                    ast.copy_location(n, st)
+                    ast.fix_missing_locations(n)
+                self.changed = True
+                return steps
         # for t in (e for s in xs if c): body   ->   for s in xs: if c: t = e; body
         if isinstance(st, ast.For) and not st.orelse:
             ge = _genexp_elements(st.iter)
